@@ -62,6 +62,20 @@ def gen_cases(ctx):
                     x.append(x[-off])
             x = bytes(x)
             p = {100: rng.choice([5, 6, 7, 9, 12, 3, 16]), 130: rng.choice([1340, 1340, 1340, 2000])}; mode = rng.choice(["c2", "c2", "stream"])
+        elif k == 2 and i % 100 == 2:
+            # worker threads + compression level raised / lowered in mid-frame (no explicit window): jobs created after the change must stay inside the
+            # window the header - already written by job 0 - declares; block-periodic input with repeats farther apart than the first window
+            per = rng.choice([600000, 1 << 20, 1500000])
+            blk = datagen.randbytes(rng, per)
+            x = bytearray()
+            while len(x) < rng.choice([5, 6, 8]) * (1 << 20):
+                b = bytearray(blk)
+                for _ in range(30):
+                    b[rng.randrange(per)] ^= 0x55
+                x += b
+            x = bytes(x)
+            p = {100: rng.choice([1, 1, 3]), 400: rng.choice([1, 2]), 201: 1}
+            cases.append(dict(mode="mtlevel", p=p, x=x, d=b"")); continue
         elif k == 4 and i % 10 == 9:
             # input lengths at the thresholds of the content-size field widths (256, 65792) and of the single-segment rule
             n_ = rng.choice([255, 256, 257, 65535, 65536, 65791, 65792, 65792, 65793, 65536 + 256 + 255, 131071, 131072])
@@ -118,6 +132,8 @@ def line_for(rng, c):
     dd = (" " + frames.hx(c["d"])) if c["d"] else ""
     if c["mode"] == "c2":
         return "comp2 c2 %s %s%s" % (ps, xs, dd)
+    if c["mode"] == "mtlevel":
+        return "cstream %s %s %s 10000000 %s" % (ps, xs, rng.choice(["300000", "1000000", "100000,700000"]), rng.choice(["cccuc", "ccccccccuc", "cuc", "cccccuccccwc"]))
     ins = ",".join(str(rng.choice([1, 7, 100, 4096, 65536, 131072, 200000, 1000000])) for _ in range(rng.randint(1, 4)))
     outs = ",".join(str(rng.choice([1, 50, 4096, 131072, 1000000])) for _ in range(rng.randint(1, 3)))
     dirs = "".join(rng.choice("cccfe") for _ in range(rng.randint(1, 6)))
